@@ -40,6 +40,7 @@ func c08Extra(c *Ctx) {
 	c.Min("offset-frame", "indices and error positions with a determined frame", nf, 20)
 	if tp := p.MustPkg("value-cycle-detection", "internal/types"); tp != nil {
 		c08ValueCycles(c, p, tp)
+		c08UniverseInterfaces(c, p, tp)
 		c08LookupNil(c, p, tp)
 	}
 	c08CommentMarkers(c)
